@@ -220,6 +220,11 @@ theorem mem_foldl_erase {m : Map} {ks : List Key} {x : Rec} (h : x ∈ ks.foldl 
   | nil => exact h
   | cons k ks ih => exact mem_erase (ih h)
 
+theorem foldl_erase_nil (ks : List Key) : ks.foldl Map.erase [] = [] := by
+  induction ks with
+  | nil => rfl
+  | cons k ks ih => exact ih
+
 /-- `find?` through a filter on a key-determined predicate -/
 theorem get?_filter (m : Map) (p : Rec → Bool) (k : Key) :
     Map.get? (m.filter p) k = (m.find? (fun r => p r && decide (r.key = k))) := by
@@ -337,4 +342,167 @@ theorem select_mem {rs : List Rec} {f : Flag} {r : Rec} (h : select rs f = some 
   | minEpoch => exact minBy_mem h
 
 end State
+/-! ## Part 4: the commit order -/
+
+
+theorem Map.get?_append (a b : Map) (k : Key) :
+    Map.get? (a ++ b) k = (match Map.get? a k with | some r => some r | none => Map.get? b k) := by
+  unfold Map.get?
+  rw [List.find?_append]
+  cases List.find? (fun r => decide (r.key = k)) a <;> rfl
+
+/-- lookup through a filter on a key-determined predicate -/
+theorem Map.get?_filter_key (m : Map) (p : Key → Bool) (k : Key) :
+    Map.get? (m.filter (fun r => p r.key)) k = if p k then m.get? k else none := by
+  induction m with
+  | nil => simp [Map.get?_nil]
+  | cons x xs ih =>
+    rw [List.filter_cons]
+    by_cases hx : p x.key = true
+    · rw [if_pos hx, Map.get?_cons, Map.get?_cons, ih]
+      by_cases hk : x.key = k
+      · subst hk; simp [hx]
+      · simp [hk]
+    · rw [if_neg hx, ih, Map.get?_cons]
+      by_cases hk : x.key = k
+      · subst hk; simp [hx]
+      · simp [hk]
+
+namespace State
+
+theorem commitOrder_perm (log : Map) : (commitOrder log).Perm log := by
+  unfold commitOrder
+  have := List.filter_append_perm (fun r : Rec => decide (r.key ≠ Key.azks)) log
+  simpa using this
+
+theorem mem_commitOrder {log : Map} {r : Rec} : r ∈ commitOrder log ↔ r ∈ log :=
+  (commitOrder_perm log).mem_iff
+
+theorem KU_commitOrder {log : Map} (h : log.KU) : Map.KU (commitOrder log) := by
+  refine (List.Perm.pairwise_iff ?_ (commitOrder_perm log)).2 h
+  intro a b hab; exact hab.symm
+
+theorem get?_commitOrder (log : Map) (k : Key) : Map.get? (commitOrder log) k = log.get? k := by
+  unfold commitOrder
+  rw [Map.get?_append, Map.get?_filter_key log (fun k => decide (k ≠ Key.azks)),
+    Map.get?_filter_key log (fun k => decide (k = Key.azks))]
+  by_cases hk : k = Key.azks
+  · simp [hk]
+  · simp only [hk, decide_false, decide_true, ne_eq, not_false_eq_true, if_true, Bool.false_eq_true, if_false]
+    cases log.get? k <;> rfl
+
+theorem commitOrder_getLast {log : Map} (hz : ∃ r ∈ log, r.key = Key.azks) :
+    ∃ r, (commitOrder log).getLast? = some r ∧ r.key = Key.azks := by
+  obtain ⟨z, hz, hk⟩ := hz
+  unfold commitOrder
+  have hne : log.filter (fun r => decide (r.key = Key.azks)) ≠ [] := by
+    intro e
+    have : z ∈ log.filter (fun r => decide (r.key = Key.azks)) := List.mem_filter.2 ⟨hz, by simp [hk]⟩
+    rw [e] at this; cases this
+  rw [List.getLast?_append]
+  cases hl : (log.filter (fun r => decide (r.key = Key.azks))).getLast? with
+  | none => exact absurd (List.getLast?_eq_none_iff.1 hl) hne
+  | some r =>
+    refine ⟨r, rfl, ?_⟩
+    have := List.mem_of_getLast? hl
+    simpa using (List.mem_filter.1 this).2
+
+/-- a filter that rejects the epoch record does not see the commit order -/
+theorem filter_commitOrder (log : Map) (p : Rec → Bool) (hp : ∀ a, p a = true → a.key ≠ Key.azks) :
+    (commitOrder log).filter p = log.filter p := by
+  unfold commitOrder
+  rw [List.filter_append, List.filter_filter, List.filter_filter]
+  have h2 : log.filter (fun a => p a && decide (a.key = Key.azks)) = [] := by
+    rw [List.filter_eq_nil_iff]; intro a _ h
+    simp only [Bool.and_eq_true, decide_eq_true_eq] at h
+    exact hp a h.1 h.2
+  rw [h2, List.append_nil]
+  apply List.filter_congr
+  intro a _
+  by_cases h : p a = true
+  · simp [h, hp a h]
+  · simp [h]
+
+theorem userStates_commitOrder (log : Map) (u : Nat) :
+    userStates (commitOrder log) u = userStates log u := by
+  unfold userStates
+  apply filter_commitOrder
+  intro a h hk
+  rw [hk] at h
+  cases h
+
+end State
+/-! ## Part 5: programs over the machine -/
+
+
+/-- inside a transaction the insertion's operations touch neither the database nor the flag -/
+theorem step_iop_active (p : Params) (s : State) (o : IOp) (f : Bool) (ha : s.active = true) :
+    (step p s (o.toOp f)).1.db = s.db ∧ (step p s (o.toOp f)).1.active = true := by
+  cases o with
+  | get k =>
+    simp only [IOp.toOp, step, State.get]
+    split
+    · exact ⟨rfl, ha⟩
+    · split
+      · exact ⟨rfl, ha⟩
+      · split
+        · simp [ha]
+        · exact ⟨rfl, ha⟩
+  | batchGet ks =>
+    simp only [IOp.toOp, step, State.batchGet]
+    split
+    · exact ⟨rfl, ha⟩
+    · split
+      · exact ⟨rfl, ha⟩
+      · split
+        · exact ⟨rfl, ha⟩
+        · simp [ha]
+  | set r =>
+    simp [IOp.toOp, step, State.set, ha]
+  | userVersions us fl =>
+    simp only [IOp.toOp, step, State.userVersions]
+    split <;> exact ⟨rfl, ha⟩
+
+/-- reads never touch the database, the log or the flag -/
+theorem step_iop_read (p : Params) (s : State) (o : IOp) (f : Bool) (hro : ∀ r, o ≠ .set r) :
+    (step p s (o.toOp f)).1.db = s.db ∧ (step p s (o.toOp f)).1.active = s.active ∧
+      (step p s (o.toOp f)).1.log = s.log := by
+  cases o with
+  | get k =>
+    simp only [IOp.toOp, step, State.get]
+    split
+    · exact ⟨rfl, rfl, rfl⟩
+    · split
+      · exact ⟨rfl, rfl, rfl⟩
+      · split
+        · simp
+        · exact ⟨rfl, rfl, rfl⟩
+  | batchGet ks =>
+    simp only [IOp.toOp, step, State.batchGet]
+    split
+    · exact ⟨rfl, rfl, rfl⟩
+    · split
+      · exact ⟨rfl, rfl, rfl⟩
+      · split
+        · exact ⟨rfl, rfl, rfl⟩
+        · simp
+  | set r => exact absurd rfl (hro r)
+  | userVersions us fl =>
+    simp only [IOp.toOp, step, State.userVersions]
+    split <;> exact ⟨rfl, rfl, rfl⟩
+
+/-- a property every operation of the program preserves holds of the state `runIOps` ends in -/
+theorem runIOps_preserves (P : State → Prop) (p : Params) (k : Option Nat) (ops : List IOp)
+    (hstep : ∀ s o f, o ∈ ops → P s → P (step p s (o.toOp f)).1) :
+    ∀ s n, P s → P (runIOps p k s n ops).1 := by
+  induction ops with
+  | nil => intro s n h; exact h
+  | cons o rest ih =>
+    intro s n h
+    have h1 := hstep s o (decide (k = some n)) List.mem_cons_self h
+    simp only [runIOps]
+    split
+    · exact h1
+    · exact ih (fun s o f ho => hstep s o f (List.mem_cons_of_mem _ ho)) _ _ h1
+
 end Akd.Store
